@@ -44,6 +44,7 @@ def run(tier):
                "token-identical; both validation errors => equal message sets; otherwise same verdict and class. distinct_nontrivial = distinct "
                "(status pair, workload class, family, cfg-split constructs present: bare attribute without args / o2o(..) list / child_parents / name-value).")
     g = xgen.G(common.rng_for("C18", tier))
+    g.allow_unknown_p = 0.06
     wl = workload(g, tier)
     srcs = [w[2] for w in wl]
     o1 = common.run_x(srcs, "s1")
